@@ -59,6 +59,13 @@ def impl():
         _update_node_delegations = ncbm.Neo4jCBMGraph._update_node_delegations
         get_delegations = ncbm.Neo4jCBMGraph.get_delegations
 
+        def find_matching_nodes(self, *, other_graph):
+            # the real method; the iteration order of the returned set (= the order in which merge_adm meets the common
+            # nodes) is recorded, so that the partial effects of a merge refused half way can be predicted
+            r = NetworkXPropertyGraph.find_matching_nodes(self, other_graph=other_graph)
+            _I['order'] = list(r)
+            return r
+
         def get_bqm(self, **kw): raise NotImplementedError
         def get_matching_nodes_with_components(self, **kw): raise NotImplementedError
         def get_intersite_links(self): raise NotImplementedError
@@ -66,6 +73,10 @@ def impl():
         def get_disconnected_sites(self): raise NotImplementedError
         def get_connected_sites(self): raise NotImplementedError
         def get_facility_ports(self): raise NotImplementedError
+    # private helpers that a refactoring of Neo4jCBMGraph may introduce are borrowed too
+    for name, fn in vars(ncbm.Neo4jCBMGraph).items():
+        if name.startswith('_') and not name.startswith('__') and callable(fn) and name not in vars(MemCBM):
+            setattr(MemCBM, name, fn)
     _I.update(nx=nx, MemCBM=MemCBM, Importer=NetworkXGraphImporter, ADM=NetworkXADMGraph, uuid=FakeUuid)
     return _I
 
@@ -234,6 +245,7 @@ def run_history(case, hist):
         for op in hist:
             res, ret = 'ok', None
             u0 = I['uuid'].n
+            _I['order'] = None
             try:
                 if op[0] == 'merge':
                     cbm.merge_adm(adm=adms[op[1]])
@@ -260,7 +272,7 @@ def run_history(case, hist):
                         'src_same': [snapshot(imp, a['gid']) for a in case['adms']] == src0,
                         'snaps_same': all(snapshot(imp, s) == v for s, v in live.items()),
                         'store_n': imp.storage.graphs.number_of_nodes(),
-                        'tmp': 'u-%d' % (u0 + 1)})
+                        'tmp': 'u-%d' % (u0 + 1), 'order': _I.get('order') or []})
         if prerw and out:
             out[0]['prerw'] = prerw
         return src0, out
@@ -572,8 +584,10 @@ def c_case(case, obs):
         I(a['gid'])
     st = c_store(I, case)
     hs = []
+    oss = []
     for hist, (src0, steps) in zip(case['hists'], obs['runs']):
         items = []
+        oss.append(clist([clist([cN(I(x)) for x in (o.get('order') or [])]) for o in steps]))
         for op, o in zip(hist, steps):
             if op[0] == 'merge':
                 t = 'OpMerge %s %s' % (cN(I(case['adms'][op[1]]['gid'])), cN(I(o['tmp'])))
@@ -587,7 +601,7 @@ def c_case(case, obs):
                                            cbool(o['snaps_same']), cN(o['store_n']))
             items.append('(%s, %s)' % (t, ob))
         hs.append(clist(items))
-    return '(%s, %s, %s, %s)' % (st, cN(0), clist([cN(I(a['gid'])) for a in case['adms']]), clist(hs))
+    return '((%s, %s, %s, %s), %s)' % (st, cN(0), clist([cN(I(a['gid'])) for a in case['adms']]), clist(hs), clist(oss))
 
 
 # ----------------------------------------------------------------------------------------------
@@ -698,7 +712,10 @@ def blank_descriptions(got):
 
 F2 = 'F2-edge-residue: '
 F4 = 'F4-order-dependent: '
-KNOWN_TAGS = (F2, F4)       # the two known findings; (F1 contraction attribute, F3 raise after an all-common merge: fixed)
+F5 = 'F5-refused-merge-residue: '
+F6 = 'F6-remerge-not-refused: '
+F7 = 'F7-rollback-unknown-destroys: '
+KNOWN_TAGS = (F2, F4, F5, F6, F7)       # the two known findings; (F1 contraction attribute, F3 raise after an all-common merge: fixed)
 
 
 def edge_residue(got, exp, src0, M2):
@@ -728,10 +745,20 @@ def oracle_history(case, hist, src0, steps, by_set):
     snapM = []          # per snapshot index: (contributor set, implementation snapshot at that time) or None
     used = set()
     prev = None
+    last_cbm, last_n = None, sum(len(x[0]) for x in src0 if x)
     for i, (op, o) in enumerate(zip(hist, steps)):
         tag = 'step %d %s: ' % (i, op)
         if o.get('prerw'):
             fails.append('before the history: ' + o['prerw'])
+        # a refusal must change nothing (the combined model, and the store: the temporary clone must not stay)
+        if op[0] == 'merge' and o['res'] not in ('ok',) and not o['res'].startswith('driver'):
+            if o['cbm'] != last_cbm:
+                fails.append(F5 + tag + 'the merge raised %s but the combined model changed (the common nodes met before '
+                             'the offending one are already merged)' % o['res'])
+            elif o['store_n'] != last_n:
+                fails.append(F5 + tag + 'the merge raised %s and left its temporary clone in the store (%d nodes more)' % (
+                    o['res'], o['store_n'] - last_n))
+        last_cbm, last_n = o['cbm'], o['store_n']
         if not o['src_same']:
             fails.append(tag + 'a source model was altered')
         if not o['snaps_same']:
@@ -752,6 +779,12 @@ def oracle_history(case, hist, src0, steps, by_set):
         elif op[0] == 'rollback':
             sensible = op[1] < len(snapM) and snapM[op[1]] is not None and op[1] not in used
         if not sensible:
+            if op[0] == 'merge' and (o['res'] == 'ok' or o['cbm'] != prev):
+                fails.append(F6 + tag + 'merging a model that is already merged %s' % (
+                    'is not refused: it is recorded twice' if o['res'] == 'ok' else 'raised %s and changed the combined model' % o['res']))
+            if op[0] == 'rollback' and o['cbm'] != prev:
+                fails.append(F7 + tag + 'rollback to an unknown or already used snapshot id raised %s after deleting the '
+                             'combined model' % o['res'])
             break
         if op[0] == 'merge':
             M2 = M | {op[1]}
@@ -830,8 +863,8 @@ class Histories(Stream):
     name = 'histories'
     header = ('From Coq Require Import List NArith Bool.\nImport ListNotations.\n'
               'From FIM Require Import Model.Cbm14Store Model.Cbm14Check Model.Cbm14Spec Model.Cbm14SpecCheck.\n')
-    case_type = 'case'
-    check_fn = 'check_case_both'
+    case_type = 'ocase'
+    check_fn = 'check_ocase_both'
     shard = 40
     rule = ('one case = a family of 1-4 delegation models sharing up to 5 stitch nodes + 3-30 histories (random '
             'interleavings of merge/unmerge/snapshot/rollback up to 12 steps, all merge permutations, merge;unmerge and '
@@ -940,6 +973,9 @@ class Histories(Stream):
             fails = self.all_failures(c, o)
             h['cases_F2_edge_residue'] += any(f.startswith(F2) for f in fails)
             h['cases_F4_order_dependent'] += any(f.startswith(F4) for f in fails)
+            h['cases_F5_refused_merge_residue'] += any(f.startswith(F5) for f in fails)
+            h['cases_F6_remerge'] += any(f.startswith(F6) for f in fails)
+            h['cases_F7_rollback_unknown'] += any(f.startswith(F7) for f in fails)
         return dict(sorted(h.items()))
 
     def describe(self, case, obs):
@@ -1204,11 +1240,156 @@ class RealModels(Histories):
         return case
 
 
+# ----------------------------------------------------------------------------------------------
+# families from the REAL partitioner: random substrate models built and annotated by C13's generator
+# (harness/c13.py, imported - not copied), partitioned by the real generate_adms; every partition becomes a source
+# ----------------------------------------------------------------------------------------------
+def extract_graph_case(imp, gid, new_gid):
+    gr = imp.storage.extract_graph(gid)
+    nodes, edges = [], []
+    for n, dd in gr.nodes(data=True):
+        oth = sorted([kk, str(v)] for kk, v in dd.items() if kk not in SPECIAL)
+        nodes.append([dd['NodeID'], dd['Class'], oth, dd.get('StructuralInfo'),
+                      canon_del(dd.get('LabelDelegations')), canon_del(dd.get('CapacityDelegations'))])
+    for x, y, dd in gr.edges(data=True):
+        edges.append([gr.nodes[x]['NodeID'], gr.nodes[y]['NodeID'], dd.get('Class'),
+                      sorted([kk, str(v)] for kk, v in dd.items() if kk != 'Class')])
+    return {'gid': new_gid, 'nodes': nodes, 'edges': edges}
+
+
+def partition_family(rng, big=False):
+    """-> family dict (sources = the partitions, 'dids' = their delegation ids, 'arm' = snapshot of the aggregate) or None"""
+    from . import c13
+    impl()
+    recipe = c13.Topo().recipe(rng, big)
+    c13._reset()
+    arm = c13.build_topo(copy.deepcopy(recipe))
+    snap = c13.snapshot(arm.storage, arm.graph_id)
+    nodes = {nid: (v['Class'], v['Stitch'] == 'true') for nid, v in snap['nodes'].items()}
+    k = rng.choice([1, 2, 2, 3, 3])
+    recipe['via'] = rng.choice(['annotate', 'direct'])
+    recipe['ann'] = c13.gen_annotations(rng, nodes, k, recipe['via'])
+    c13.annotate(arm, recipe, set(snap['nodes'].keys()))
+    imp = arm.importer
+    arm_snap = snapshot(imp, arm.graph_id)
+    try:
+        parts = arm.generate_adms()
+    except Exception:
+        c13._reset()
+        return None
+    dids = sorted(parts.keys())
+    if not dids:
+        c13._reset()
+        return None
+    adms = [extract_graph_case(imp, parts[d].graph_id, 'adm-%d' % (i + 1)) for i, d in enumerate(dids)]
+    c13._reset()
+    return {'adms': adms, 'mode': 'partitions', 'dids': dids, 'arm': arm_snap, 'recipe': recipe}
+
+
+class Partitions(Histories):
+    name = 'partitions'
+    shard = 4
+    check_fn = 'check_ocase_part'
+    rule = ('families produced by the real generate_adms from random substrate models of C13\'s generator (1-2 sites, workers, '
+            'components, switches, facilities, links; 1-3 delegation ids, single and pooled): all merge orders of the '
+            'partitions, merge;unmerge;re-merge, snapshot/rollback probes, one random interleaving; end-to-end clause: after '
+            'merging ALL partitions in any order the combined model is determined by the aggregate (node properties = the '
+            'aggregate\'s, every delegation of a merged id present keyed by its partition); Coq also checks that any two '
+            'partitions describe common nodes / connections identically (partition_domain) and the refinement domain '
+            '(refine_hyp); non-trivial = at least two partitions sharing a node; distinct by aggregate and histories')
+
+    def gen(self, rng, tier):
+        n = 14 if tier == 'quick' else 150
+        out = []
+        tries = 0
+        while len(out) < n and tries < 4 * n:
+            tries += 1
+            fam = partition_family(rng, big=(tier != 'quick' and tries % 3 == 0))
+            if fam is None:
+                continue
+            k = len(fam['adms'])
+            hs = perm_histories(k) + [gen_history(rng, k, 8)]
+            if k >= 2:
+                hs += inverse_histories(k, rng)[:3] + snapshot_histories(k, rng)[:1]
+            fam['hists'] = hs
+            out.append(fam)
+        return out
+
+    def corpus(self):
+        return []
+
+    def all_failures(self, case, obs):
+        fails = Histories.all_failures(self, case, obs)
+        # end-to-end: merging ALL partitions, in any order, gives what the aggregate says
+        arm = case.get('arm')
+        if not arm:
+            return fails
+        an = {n[0]: n for n in arm[0]}
+        gids = [a['gid'] for a in case['adms']]
+        by_did = dict(zip(case['dids'], gids))
+        k = len(gids)
+        for h, (src0, steps) in zip(case['hists'], obs['runs']):
+            if len(h) != k or sorted(op[1] for op in h if op[0] == 'merge') != list(range(k)):
+                continue
+            if any(s['res'] != 'ok' for s in steps):
+                continue          # two partitions delegate one resource: refused as documented
+            cbm = steps[-1]['cbm']
+            tag = 'all partitions merged in order %s: ' % [op[1] for op in h]
+            got = {n[0]: n for n in cbm[0]}
+            for nid, n in got.items():
+                a = an.get(nid)
+                if a is None:
+                    fails.append(tag + 'node %s is not in the aggregate model' % nid)
+                    break
+                if [n[1], n[2]] != [a[1], a[2]]:
+                    fails.append(tag + 'node %s class/properties %s, the aggregate has %s' % (nid, [n[1], n[2]], [a[1], a[2]]))
+                    break
+                for f, nm in ((4, 'label'), (5, 'capacity')):
+                    want = None
+                    if isinstance(a[f], list):
+                        ent = [[by_did[d], c] for d, c in a[f] if d in by_did]
+                        want = ent or None
+                    if norm_del(n[f]) != want:
+                        fails.append(tag + 'node %s %s delegations %s, the aggregate delegates %s' % (nid, nm, n[f], want))
+                        break
+            for nid, a in an.items():
+                if nid not in got and any(isinstance(a[f], list) and a[f] for f in (4, 5)):
+                    fails.append(tag + 'node %s is delegated in the aggregate but missing from the combined model' % nid)
+                    break
+        return fails
+
+    def key(self, case, obs):
+        ids = [set(n[0] for n in a['nodes']) for a in case['adms']]
+        if any(ids[i] & ids[j] for i in range(len(ids)) for j in range(i)):
+            return stable_hash([case['arm'], case['hists']])
+        return None
+
+    def histogram(self, cases, obs):
+        h = collections.Counter(Histories.histogram(self, cases, obs))
+        for c, o in zip(cases, obs):
+            h['partitions_%d' % len(c['adms'])] += 1
+            h['aggregate_nodes_%03d+' % (len(c['arm'][0]) // 20 * 20)] += 1
+            full = [st for hh, (_, st) in zip(c['hists'], o['runs']) if len(hh) == len(c['adms']) and all(op[0] == 'merge' for op in hh)]
+            if full and all(all(s['res'] == 'ok' for s in st) for st in full):
+                h['families_all_partitions_mergeable'] += 1
+            elif full:
+                h['families_refused_two_partitions_delegate_one_resource'] += 1
+        return dict(sorted(h.items()))
+
+    def describe(self, case, obs):
+        return {'aggregate_nodes': len(case['arm'][0]), 'delegation_ids': case['dids'],
+                'partitions': [{'gid': a['gid'], 'nodes': len(a['nodes']), 'edges': len(a['edges'])} for a in case['adms']],
+                'first_history': case['hists'][0], 'results': [s['res'] for s in obs['runs'][0][1]]}
+
+    def shrink(self, case, failing):
+        return RealModels.shrink(self, case, failing)
+
+
 class C14(Check):
     pid = 'C14'
     translators = []
     model_targets = ['Model/Cbm14Store.vo', 'Model/Cbm14Check.vo', 'Model/Cbm14Spec.vo', 'Model/Cbm14SpecCheck.vo']
-    streams = [Histories(), RealModels()]
+    streams = [Histories(), RealModels(), Partitions()]
     trusted_base = [
         'Coq 8.16.1 kernel (coqc), vm_compute for the correspondence evaluation; no native_compute',
         'Print Assumptions of every C14 theorem: Closed under the global context (no axioms)',
@@ -1236,7 +1417,9 @@ class C14(Check):
     ]
 
     def refuted_witnesses(self):
-        return [('C14_unmerge_edge_refuted', witness_edge), ('C14_order_refuted', witness_order)]
+        return [('C14_unmerge_edge_refuted', witness_edge), ('C14_order_refuted', witness_order),
+                ('C14_refused_merge_refuted', witness_refused), ('C14_remerge_refuted', witness_remerge),
+                ('C14_rollback_unknown_refuted', witness_rollback_unknown)]
 
 
 def witness_edge():
@@ -1250,6 +1433,38 @@ def witness_edge():
     _, st = run_history(case, [['merge', 0], ['merge', 1], ['merge', 2], ['unmerge', 'adm-2']])
     still = st[1]['cbm'] is not None and st[3]['cbm'] is not None and st[1]['cbm'][1] != st[3]['cbm'][1]
     return still, {'case': case, 'after_merge_B1_B3': st[1]['cbm'], 'after_merge_B2_unmerge_B2': st[3]['cbm']}
+
+
+def witness_refused():
+    """Proofs/Cbm14Refusal.v refused_merge_not_atomic: adm-2 also delegates s1, which adm-1 delegates: merge adm-1; merge
+    adm-2 raises - and leaves the temporary clone in the store (and, depending on the order in which the common nodes
+    are met, adm-2 recorded as a contributor of the nodes met before s1)"""
+    sh = [N('s%d' % i, 'ConnectionPoint') for i in range(2, 8)]
+    case = {'adms': [
+        {'gid': 'adm-1', 'nodes': [N('s1', 'ConnectionPoint', cd=[['del1', 'c1']])] + copy.deepcopy(sh) + [N('p1-1', 'NetworkNode')], 'edges': []},
+        {'gid': 'adm-2', 'nodes': [N('s1', 'ConnectionPoint', cd=[['del2', 'c2']])] + copy.deepcopy(sh) + [N('p2-1', 'NetworkNode')], 'edges': []}]}
+    _, st = run_history(case, [['merge', 0], ['merge', 1]])
+    still = st[1]['res'] != 'ok' and (st[1]['cbm'] != st[0]['cbm'] or st[1]['store_n'] != st[0]['store_n'])
+    return still, {'case': case, 'second_merge': st[1]['res'], 'store_nodes_before_after': [st[0]['store_n'], st[1]['store_n']],
+                   'combined_changed': st[1]['cbm'] != st[0]['cbm']}
+
+
+def witness_remerge():
+    """merge adm-1; merge adm-1 again is not refused: every node lists adm-1 twice; unmerge adm-1 then leaves them all"""
+    case = {'adms': [{'gid': 'adm-1', 'nodes': [N('s1', 'ConnectionPoint'), N('p1-1', 'NetworkNode')],
+                      'edges': [['s1', 'p1-1', 'has', []]]}]}
+    _, st = run_history(case, [['merge', 0], ['merge', 0], ['unmerge', 'adm-1']])
+    still = st[1]['res'] == 'ok' and st[2]['cbm'] is not None
+    return still, {'case': case, 'after_second_merge': st[1]['cbm'], 'after_unmerge': st[2]['cbm']}
+
+
+def witness_rollback_unknown():
+    """merge adm-1; rollback to a snapshot id that does not exist: AssertionError, the combined model is gone"""
+    case = {'adms': [{'gid': 'adm-1', 'nodes': [N('s1', 'ConnectionPoint'), N('p1-1', 'NetworkNode')],
+                      'edges': [['s1', 'p1-1', 'has', []]]}]}
+    _, st = run_history(case, [['merge', 0], ['rollback', 5]])
+    still = st[1]['res'] != 'ok' and st[0]['cbm'] is not None and st[1]['cbm'] is None
+    return still, {'case': case, 'rollback': st[1]['res'], 'combined_after': st[1]['cbm']}
 
 
 def witness_order():
